@@ -7,7 +7,7 @@
 
 #define DEPS 2.220446049250313e-16
 
-static long ncases(int tier) { return tier ? 2000000 : 50000; }
+static long ncases(int tier) { if (vh_is_tsan()) return tier ? 2000 : 160; return tier ? 2000000 : 50000; }
 
 static dvector *dv_of(const double *a, size_t n)
 {
@@ -126,7 +126,8 @@ static size_t gen_reg(vh_ctx *c, size_t n, double scale, double loc, int flavour
 static void case_regression(vh_ctx *c)
 {
   size_t n = vh_coin(c, 0.3) ? (size_t)vh_int(c, 2, 6) : (size_t)vh_int(c, 2, 200), nmiss;
-  double e10 = vh_range(c, -6, 6), scale = pow(10.0, e10);
+  /* "regression vectors of any scale": a quarter of the cases goes beyond 1e-6..1e6, down to 1e-12 and up to 1e12 */
+  double e10 = vh_coin(c, 0.25) ? vh_range(c, -12, 12) : vh_range(c, -6, 6), scale = pow(10.0, e10);
   double loc = vh_coin(c, 0.4) ? 0.0 : vh_range(c, -10, 10) * scale;
   int flavour = (int)vh_int(c, 0, 5);
   double noise = vh_logunif(c, -3, 0.5);
@@ -514,9 +515,64 @@ out:
   free(ct); free(cp);
 }
 
+/* ------------------------------------------------------------------ concurrent callers (second build session)
+ * The figures of merit are functions of their arguments: a call must return its definition whatever other threads compute at
+ * the same moment (the validation drivers call them from worker threads).  K threads evaluate ROC, PrecisionRecall and the
+ * regression figures on their own data many times; every result must be bit-identical to the result the same call gave
+ * before the threads were started, and the AUC must be the Mann-Whitney probability.  Runs under ASan+UBSan and under TSan. */
+#include <pthread.h>
+typedef struct { size_t n; double *y, *s, *yt, *yp; double auc0, ap0, r20, mse0, bias0; ld mw; size_t np, nn; int reps, bad_auc, bad_ap, bad_reg, bad_mw; } conc_t;
+static void *conc_worker(void *a)
+{
+  conc_t *w = a; int r; dvector *vy = dv_of(w->y, w->n), *vs = dv_of(w->s, w->n), *vt = dv_of(w->yt, w->n), *vp = dv_of(w->yp, w->n);
+  for (r = 0; r < w->reps; r++) {
+    matrix *roc, *pr; double auc = -1, ap = -1, r2, mse, bias;
+    initMatrix(&roc); initMatrix(&pr);
+    ROC(vy, vs, roc, &auc); PrecisionRecall(vy, vs, pr, &ap);
+    r2 = R2(vt, vp); mse = MSE(vt, vp); bias = BIAS(vt, vp);
+    if (memcmp(&auc, &w->auc0, sizeof auc)) w->bad_auc++;
+    if (memcmp(&ap, &w->ap0, sizeof ap)) w->bad_ap++;
+    if (memcmp(&r2, &w->r20, sizeof r2) || memcmp(&mse, &w->mse0, sizeof mse) || memcmp(&bias, &w->bias0, sizeof bias)) w->bad_reg++;
+    if (!(fabsl((ld)auc * (ld)w->np * (ld)w->nn - w->mw) <= 1e-9L * (ld)w->np * (ld)w->nn)) w->bad_mw++;
+    DelMatrix(&roc); DelMatrix(&pr);
+  }
+  DelDVector(&vy); DelDVector(&vs); DelDVector(&vt); DelDVector(&vp);
+  return NULL;
+}
+static void case_concurrent(vh_ctx *c)
+{
+  int K = (int)vh_int(c, 2, 6), k, reps = vh_is_tsan() ? 6 : 25; conc_t w[6]; pthread_t th[6];
+  int bad_auc = 0, bad_ap = 0, bad_reg = 0, bad_mw = 0;
+  vh_class(c, "concurrent-callers-%d", K);
+  vh_desc(c, "%d threads x %d repetitions of ROC / PrecisionRecall / R2 / MSE / BIAS on their own vectors", K, reps);
+  for (k = 0; k < K; k++) {
+    size_t n = (size_t)vh_int(c, 5, 120), i; rankref rr;
+    memset(&w[k], 0, sizeof w[k]); w[k].n = n; w[k].reps = reps;
+    w[k].y = malloc(n * sizeof(double)); w[k].s = malloc(n * sizeof(double)); w[k].yt = malloc(n * sizeof(double)); w[k].yp = malloc(n * sizeof(double));
+    while (!gen_rank(c, n, (int)vh_int(c, 0, 3), w[k].y, w[k].s)) ;
+    for (i = 0; i < n; i++) { w[k].yt[i] = vh_gauss(c) * 3 + (double)k; w[k].yp[i] = w[k].yt[i] + 0.4 * vh_gauss(c); }
+    rank_oracle(w[k].y, w[k].s, n, &rr); w[k].mw = rr.mw; w[k].np = rr.np; w[k].nn = rr.nn;
+    free(rr.rx); free(rr.ry); free(rr.px); free(rr.py);
+    { dvector *vy = dv_of(w[k].y, n), *vs = dv_of(w[k].s, n), *vt = dv_of(w[k].yt, n), *vp = dv_of(w[k].yp, n); matrix *roc, *pr;
+      initMatrix(&roc); initMatrix(&pr);
+      ROC(vy, vs, roc, &w[k].auc0); PrecisionRecall(vy, vs, pr, &w[k].ap0);
+      w[k].r20 = R2(vt, vp); w[k].mse0 = MSE(vt, vp); w[k].bias0 = BIAS(vt, vp);
+      DelMatrix(&roc); DelMatrix(&pr); DelDVector(&vy); DelDVector(&vs); DelDVector(&vt); DelDVector(&vp); }
+  }
+  for (k = 0; k < K; k++) pthread_create(&th[k], NULL, conc_worker, &w[k]);
+  for (k = 0; k < K; k++) pthread_join(th[k], NULL);
+  for (k = 0; k < K; k++) { bad_auc += w[k].bad_auc; bad_ap += w[k].bad_ap; bad_reg += w[k].bad_reg; bad_mw += w[k].bad_mw; free(w[k].y); free(w[k].s); free(w[k].yt); free(w[k].yp); }
+  vh_obs("concurrent_caller_cases", 1); vh_obs("concurrent_calls", (double)K * reps * 5);
+  if (bad_auc) vh_fail(c, "ROC|result-depends-on-concurrent-callers", "%d of %d concurrent calls returned another AUC than the same call made alone", bad_auc, K * reps);
+  if (bad_mw) vh_fail(c, "ROC|AUC-not-Mann-Whitney|concurrent-callers", "%d of %d concurrent calls", bad_mw, K * reps);
+  if (bad_ap) vh_fail(c, "PrecisionRecall|result-depends-on-concurrent-callers", "%d of %d concurrent calls returned another area than the same call made alone", bad_ap, K * reps);
+  if (bad_reg) vh_fail(c, "R2/MSE/BIAS|result-depends-on-concurrent-callers", "%d of %d concurrent calls", bad_reg, K * reps);
+}
+
 static void run_case(vh_ctx *c)
 {
   long m = vh_int(c, 0, 99);
+  if (vh_is_tsan() || c->idx % 50 == 49) { case_concurrent(c); return; }
   if (m < 42) case_regression(c);
   else if (m < 84) case_ranking(c);
   else case_tables(c);
